@@ -244,7 +244,7 @@ class Prop:
     id = "C09"
     level = "exploration"
     run_timeout = 120
-    tiers = {"quick": {"runs": 6000, "budget_s": 45, "chunk": 10},
+    tiers = {"quick": {"runs": 6000, "budget_s": 42, "chunk": 6},
              "thorough": {"runs": 600000, "budget_s": 900, "chunk": 20}}
     rule = ("case = program (G: generated well-founded program in the documented grammar; T: shipped `main`/`nonhermitian` "
             "under free flag combinations; S: shipped algorithms as wired by block_diagonalize with masks and the real "
